@@ -168,7 +168,12 @@ ElemCopyOf::startElement(StylesheetExecutionContext&        executionContext) co
         case XObject::eTypeBoolean:
         case XObject::eTypeNumber:
         case XObject::eTypeString:
-            executionContext.characters(value);
+            // An empty string creates no text node (XSLT 1.0 11.3, 7.6.1), so it
+            // must not close a pending start tag either.
+            if (value->stringLength(executionContext) != 0)
+            {
+                executionContext.characters(value);
+            }
             break;
 
         case XObject::eTypeNodeSet:
@@ -253,7 +258,12 @@ ElemCopyOf::execute(StylesheetExecutionContext&     executionContext) const
         case XObject::eTypeBoolean:
         case XObject::eTypeNumber:
         case XObject::eTypeString:
-            executionContext.characters(value);
+            // An empty string creates no text node (XSLT 1.0 11.3, 7.6.1), so it
+            // must not close a pending start tag either.
+            if (value->stringLength(executionContext) != 0)
+            {
+                executionContext.characters(value);
+            }
             break;
 
         case XObject::eTypeNodeSet:
